@@ -13,6 +13,14 @@ import (
 // returns the observation log (per op: accepted count, arrivals at the sinks, responses at the
 // sources, in order).
 func runOnce(fs flowSpec, nsess int, ops []op, attach bool) (log []string, fails []string, err error) {
+	ok, p := lib.WithTimeout(12*watchdog, func() { log, fails, err = runOnceBody(fs, nsess, ops, attach) })
+	if !ok || p != nil {
+		return nil, nil, fmt.Errorf("the run (agent attached: %v) did not finish within %v (panic=%v)\n%s", attach, 12*watchdog, p, goroutineDump())
+	}
+	return log, fails, err
+}
+
+func runOnceBody(fs flowSpec, nsess int, ops []op, attach bool) (log []string, fails []string, err error) {
 	var agent *runtime.Agent
 	if attach {
 		agent = runtime.NewAgent()
@@ -41,7 +49,11 @@ func transparencyCase(c *lib.Ctx, fs flowSpec, nsess int, ops []op, fails *[]lib
 	}
 	head := "# " + fs.String() + "\n# schedule: " + strings.Join(os, " ")
 	if err1 != nil || err2 != nil {
-		*fails = append(*fails, lib.OracleFail{Class: "build", What: fmt.Sprintf("%v: with agent: %v, without: %v", fs, err1, err2), Replay: head})
+		class := "build"
+		if err1 != nil && err2 == nil {
+			class = "not-transparent" // the run with the agent failed / hung, the one without did not
+		}
+		*fails = append(*fails, lib.OracleFail{Class: class, What: fmt.Sprintf("%v: with agent: %.200v, without: %.200v", fs, err1, err2), Replay: head + fmt.Sprintf("\n# with agent: %v\n# without agent: %v", err1, err2)})
 		return ""
 	}
 	replay := head + "\n# with agent:\n" + strings.Join(with, "\n") + "\n# without agent:\n" + strings.Join(without, "\n")
